@@ -819,6 +819,145 @@ func runFlush(fc flushCase) ([]bool, error) {
 	return res, nil
 }
 
+// ---------------------------------------------------------------- (d) a partition is dropped from a waiting buffer
+// Two brokers; broker 1 leads every partition and answers its first produce request only when the gate opens (slow
+// broker), with NOT_LEADER_FOR_PARTITION for partition 0, whose leader has meanwhile moved to broker 2. While the
+// first request is unanswered the next buffer fills: the bulk for partition 0 (reaching the byte / count trigger),
+// a few small messages for other partitions. The response takes partition 0 out of the waiting buffer; what is left
+// is below the triggers and must still go out by the flush timer, with no further input.
+type dropCase struct {
+	C      cfgSpec   `json:"cfg"`
+	Mode   string    `json:"mode"` // bytes | messages
+	First  []msgSpec `json:"first"`  // request A (partition 0)
+	Bulk   []msgSpec `json:"bulk"`   // partition 0, waiting behind A
+	Rest   []msgSpec `json:"rest"`   // other partitions, waiting behind A
+	NParts int       `json:"nparts"`
+}
+
+func genDrop(r *rand.Rand, id int) dropCase {
+	c := cfgSpec{Version: versions[r.Intn(len(versions))], MaxMessageBytes: 100000, MaxRequestSize: 100 * 1024 * 1024}
+	c.FlushFreqMs = []int{40, 60, 90}[r.Intn(3)]
+	dc := dropCase{NParts: 2 + r.Intn(2)}
+	next := 0
+	mk := func(part int32, sz int) msgSpec {
+		next++
+		return msgSpec{ID: int64(next), Topic: 0, Part: part, Key: ip(r.Intn(4)), Val: ip(sz)}
+	}
+	if id%3 != 2 {
+		dc.Mode = "bytes"
+		c.FlushBytes = 800 + r.Intn(600)
+		dc.First = []msgSpec{mk(0, c.FlushBytes+200+r.Intn(500))}
+		dc.Bulk = []msgSpec{mk(0, c.FlushBytes+200+r.Intn(500))}
+	} else {
+		dc.Mode = "messages"
+		c.FlushMessages = 2 + r.Intn(2)
+		for i := 0; i < c.FlushMessages; i++ {
+			dc.First = append(dc.First, mk(0, 10+r.Intn(40)))
+		}
+		for i := 0; i < c.FlushMessages; i++ {
+			dc.Bulk = append(dc.Bulk, mk(0, 10+r.Intn(40)))
+		}
+	}
+	nrest := 1 + r.Intn(2)
+	if dc.Mode == "messages" && nrest >= c.FlushMessages {
+		nrest = c.FlushMessages - 1
+	}
+	for i := 0; i < nrest; i++ {
+		dc.Rest = append(dc.Rest, mk(int32(1+r.Intn(dc.NParts-1)), 5+r.Intn(30)))
+	}
+	dc.C = c
+	return dc
+}
+
+func runDrop(dc dropCase) (bool, error) {
+	rep := &reporter{}
+	b1 := sarama.NewMockBroker(rep, 1)
+	b2 := sarama.NewMockBroker(rep, 2)
+	defer b1.Close()
+	defer b2.Close()
+	md := func(p0leader int32) *sarama.MockMetadataResponse {
+		m := sarama.NewMockMetadataResponse(rep).SetBroker(b1.Addr(), 1).SetBroker(b2.Addr(), 2).SetLeader(topicName(0), 0, p0leader)
+		for p := 1; p < dc.NParts; p++ {
+			m.SetLeader(topicName(0), int32(p), 1)
+		}
+		return m
+	}
+	gated := sarama.VerifC16NewGatedProduce(rep, produceVersion(dc.C.Version), topicName(0), 0, sarama.ErrNotLeaderForPartition)
+	defer gated.Open()
+	md1 := sarama.VerifC16NewSwapMetadata(md(1))
+	b1.SetHandlerByMap(map[string]sarama.MockResponse{"MetadataRequest": md1, "ProduceRequest": gated})
+	b2.SetHandlerByMap(map[string]sarama.MockResponse{"MetadataRequest": md(2), "ProduceRequest": sarama.NewMockProduceResponse(rep).SetVersion(produceVersion(dc.C.Version))})
+	conf := dc.C.config()
+	conf.Producer.Retry.Max = 3
+	conf.Producer.Retry.Backoff = 20 * time.Millisecond
+	conf.Metadata.Retry.Max = 1
+	conf.Metadata.Retry.Backoff = 10 * time.Millisecond
+	prod, client, err := newProducer(b1, conf, 1, dc.NParts)
+	if err != nil {
+		return false, err
+	}
+	_ = client
+	for _, m := range dc.First {
+		prod.Input() <- m.build()
+	}
+	for t0 := time.Now(); gated.Seen() < 1; { // request A is out and unanswered
+		if time.Since(t0) > 10*time.Second {
+			return false, errors.New("the first produce request did not reach the gated broker within 10s")
+		}
+		time.Sleep(time.Millisecond)
+	}
+	for _, m := range dc.Bulk {
+		prod.Input() <- m.build()
+	}
+	time.Sleep(20 * time.Millisecond) // partitions travel through different goroutines: the bulk must be buffered first
+	for _, m := range dc.Rest {
+		prod.Input() <- m.build()
+	}
+	time.Sleep(40 * time.Millisecond) // let them reach the broker worker's buffer
+	md1.Set(md(2))
+	gated.Open()
+	total := len(dc.First) + len(dc.Bulk) + len(dc.Rest)
+	got := 0
+	deadline := time.After(15 * time.Second)
+loop:
+	for got < total {
+		select {
+		case <-prod.Successes():
+			got++
+		case <-prod.Errors(): // an error is an outcome too: the message is not stuck
+			got++
+		case <-deadline:
+			break loop
+		}
+	}
+	if got < total {
+		return false, nil // abandoned: AsyncClose would wait for the stuck messages for ever
+	}
+	done := make(chan struct{})
+	go func() {
+		prod.AsyncClose()
+		for range prod.Successes() {
+		}
+		for range prod.Errors() {
+		}
+		close(done)
+	}()
+	select {
+	case <-done:
+	case <-time.After(60 * time.Second):
+		return false, errors.New("producer did not shut down within 60s")
+	}
+	return true, nil
+}
+
+func coqEvMsgs(ms []msgSpec) []string {
+	var it []string
+	for _, m := range ms {
+		it = append(it, fmt.Sprintf("EvMsg %s false", m.coq()))
+	}
+	return it
+}
+
 // ---------------------------------------------------------------- main
 func main() {
 	out := flag.String("out", ".", "output directory")
@@ -956,9 +1095,50 @@ func main() {
 		term := fmt.Sprintf("{| fc_cfg := %s; fc_rounds := %s; fc_flushed := %s |}", fc.C.coq(), cf.List(rs), cf.List(fl))
 		wf.Add(term, cf.Sidecar{Case: map[string]interface{}{"case": fc, "flushed": res[i]}, Kind: "flush:" + fc.Class, Nontrivial: true, Monitor: mon})
 	}
+	// ---- (d) in parallel
+	nd := *n / 25
+	dcs := make([]dropCase, nd)
+	for i := range dcs {
+		dcs[i] = genDrop(r, i)
+	}
+	dres := make([]bool, nd)
+	derrs := make([]error, nd)
+	for i := range dcs {
+		wg.Add(1)
+		sem <- struct{}{}
+		go func(i int) {
+			defer wg.Done()
+			dres[i], derrs[i] = runDrop(dcs[i])
+			if derrs[i] != nil || !dres[i] { // it counts only when it happens twice
+				dres[i], derrs[i] = runDrop(dcs[i])
+			}
+			<-sem
+		}(i)
+	}
+	wg.Wait()
+	we := &cf.Writer{Dir: *out, Prefix: "cases_drop", Imports: imports, CaseType: "ecase", MismatchFn: "mismatches_e", ShardSize: 200}
+	for i, dc := range dcs {
+		if derrs[i] != nil {
+			fmt.Fprintln(os.Stderr, "drop run failed:", derrs[i])
+			os.Exit(3)
+		}
+		var mon *cf.Monitor
+		if !dres[i] {
+			mon = &cf.Monitor{Signature: "flush:stuck-in-buffer", What: fmt.Sprintf("after a response dropped partition 0 from the waiting buffer (%s trigger, Flush.Frequency %dms) the remaining message(s) got no outcome within 15s with no further input (twice)", dc.Mode, dc.C.FlushFreqMs)}
+		}
+		w1 := coqEvMsgs(dc.First)
+		w1 = append(w1, "EvHandOff")
+		w1 = append(w1, coqEvMsgs(dc.Bulk)...)
+		w1 = append(w1, coqEvMsgs(dc.Rest)...)
+		w1 = append(w1, "EvResponse [(0, 0)] false")
+		w2 := append(coqEvMsgs(dc.First), coqEvMsgs(dc.Bulk)...)
+		term := fmt.Sprintf("{| ec_cfg := %s; ec_workers := [%s; %s]; ec_flushed := %s |}", dc.C.coq(), cf.List(w1), cf.List(w2), cf.Bool(dres[i]))
+		we.Add(term, cf.Sidecar{Case: map[string]interface{}{"case": dc, "flushed": dres[i]}, Kind: "drop:" + dc.Mode, Nontrivial: true, Monitor: mon})
+	}
 	ws.Close()
 	wb.Close()
 	wf.Close()
+	we.Close()
 }
 
 type nopLogger struct{}
